@@ -74,27 +74,42 @@ def generate(rep, name, c, timeout=3000):
     return scripts
 
 
-def run_and_validate(rep, scripts, variants, label, procs=16, batch_lines=15000):
-    """Execute scripts on the real backends and have TLC judge every line."""
-    traces = pipeline.exec_scripts("harness.store_adapter", "run_script", scripts, variants, procs=procs)
-    verdicts, stats = pipeline.validate_traces("Trace_FimStore", "Trace_FimStore.cfg", traces, batch_lines=batch_lines)
-    rep.traces += len(traces)
-    nlines = sum(len(t["steps"]) for t in traces)
+def run_and_validate(rep, scripts, variants, label, procs=16, batch_lines=15000, chunk=4000):
+    """Execute scripts on the real backends and have TLC judge every line (in chunks, so that memory stays bounded)."""
+    ntr = nlines = 0
+    agg = {}
+    first, all_verdicts = [], {}
+    for c0 in range(0, max(1, len(scripts)), chunk):
+        part = scripts[c0:c0 + chunk]
+        if not part:
+            break
+        traces = pipeline.exec_scripts("harness.store_adapter", "run_script", part, variants, procs=procs)
+        verdicts, stats = pipeline.validate_traces("Trace_FimStore", "Trace_FimStore.cfg", traces, batch_lines=batch_lines)
+        for k, v in stats.items():
+            agg[k] = (agg.get(k, 0) + v) if isinstance(v, (int, float)) else v
+        ntr += len(traces)
+        nlines += sum(len(t["steps"]) for t in traces)
+        by_tid = {t["tid"]: t for t in traces}
+        for tid, v in verdicts.items():
+            t = by_tid[tid]
+            for (line, clause) in v["rejects"]:
+                op = t["steps"][line - 1]["op"]
+                rep.rejects.append(Reject("store", t["backend"], op["op"], clause,
+                                          [s["op"] for s in t["steps"][:line]], line,
+                                          {"fmt": t.get("fmt"), "observed_out": t["steps"][line - 1]["out"],
+                                           "observed_res": t["steps"][line - 1]["res"]}))
+        if not first:
+            first = traces[:2]
+        if len(scripts) <= chunk:
+            all_verdicts = verdicts
+            last_traces = traces
+    rep.traces += ntr
     rep.lines += nlines
-    rep.extra.setdefault("validation", []).append(dict(stats, label=label, traces=len(traces), lines=nlines))
-    by_tid = {t["tid"]: t for t in traces}
-    for tid, v in verdicts.items():
-        t = by_tid[tid]
-        for (line, clause) in v["rejects"]:
-            op = t["steps"][line - 1]["op"]
-            rep.rejects.append(Reject("store", t["backend"], op["op"], clause,
-                                      [s["op"] for s in t["steps"][:line]], line,
-                                      {"fmt": t.get("fmt"), "observed_out": t["steps"][line - 1]["out"],
-                                       "observed_res": t["steps"][line - 1]["res"]}))
-    for t in traces[:2]:
+    rep.extra.setdefault("validation", []).append(dict(agg, label=label, traces=ntr, lines=nlines))
+    for t in first:
         rep.add_sample({"backend": t["backend"], "script": [s["op"] for s in t["steps"][:6]],
                         "observed": [[s["out"], s["res"]] for s in t["steps"][:6]]})
-    return traces, verdicts
+    return (last_traces if len(scripts) <= chunk and scripts else []), all_verdicts
 
 
 # ------------------------------------------------------------------------------------------- random drivers
